@@ -1175,3 +1175,127 @@ Qed.
 (** GQL builds the same plan when there is nothing to misplace *)
 Lemma gql_plan_plain q : q_order q = [] -> q_skip q = None -> q_limit q = None -> gql_plan_of q = cypher_plan_of q.
 Proof. intros Ho Hs Hl. unfold gql_plan_of, cypher_plan_of. rewrite Ho, Hs, Hl. reflexivity. Qed.
+
+(** * RETURN over rows whose cells hold ids in any vector kind (entity cells, or the generic Int64
+    cells that SKIP / LIMIT / ORDER BY leave behind) *)
+Definition idlike (c : cell) : Prop := match c with CNode _ | CEdge _ | CVal (VInt _) => True | _ => False end.
+Lemma to_nodecol_id c : idlike c ->
+  to_nodecol c = CNode (match c with CNode i | CEdge i | CVal (VInt i) => i | _ => 0 end) /\ cell_val (to_nodecol c) = cell_val c.
+Proof. destruct c as [i|i|v]; cbn; intros H; try (split; reflexivity). destruct v; try contradiction. split; reflexivity. Qed.
+Lemma is_ent_idlike c : is_ent c -> idlike c.
+Proof. destruct c as [i|i|v]; cbn; intros H; [exact I|exact I|destruct H]. Qed.
+
+Lemma col_cell_in cs r x : List.In x cs -> List.length cs = List.length r -> exists c, row_look cs r x = Some c /\ col_cell cs r x = c /\ List.In c r.
+Proof.
+  intros Hi Hl. destruct (row_look_in cs r x Hi Hl) as (c & Hc). exists c. split; [exact Hc|]. split; [unfold col_cell; rewrite Hc; reflexivity|].
+  unfold row_look in Hc. destruct (pos_last x cs); [|discriminate Hc]. cbn [obind] in Hc. eapply nth_error_In. exact Hc.
+Qed.
+
+Lemma return_sem_gen st items t envs vs :
+  (forall r, List.In r (rows t) -> List.length (cols t) = List.length r /\
+                                   forall x, List.In x vs -> idlike (col_cell (cols t) r x)) ->
+  (forall x, List.In x vs -> List.In x (cols t)) ->
+  forallb (core_item vs) items = true ->
+  Forall2 (fun r en => map (ival st (cols t) r) items = map (item_val st en) items) (rows t) envs ->
+  exists t', return_tbl st (ret_items items) t = Ok t' /\ out_rows t' = project_envs st items envs.
+Proof.
+  intros Hrows Hvs Hc Henv. rewrite forallb_forall in Hc.
+  assert (Hgoal : forall rs', Forall2 (fun r r' => map cell_val r' = map (ival st (cols t) r) items) (rows t) rs' ->
+                  map (map cell_val) rs' = project_envs st items envs).
+  { intros rs' HF. unfold project_envs. clear -HF Henv. revert rs' HF.
+    induction Henv as [|r en rs ens H1 _ IH]; intros rs' HF; inversion HF as [|? r' ? rs'' H2 H3]; subst; [reflexivity|].
+    cbn [map]. f_equal; [rewrite H2; exact H1|apply IH; exact H3]. }
+  (* cells of variables *)
+  assert (Hvar : forall x r, List.In (EVar x) items \/ (exists k, List.In (EProp x k) items) -> List.In r (rows t) ->
+                 exists i c, pos_last x (cols t) = Some i /\ nth_error r i = Some c /\ col_cell (cols t) r x = c /\ idlike c).
+  { intros x r Hx Hr. destruct (Hrows r Hr) as [Hl He].
+    assert (Hinv : List.In x vs).
+    { destruct Hx as [Hx|[k Hx]]; specialize (Hc _ Hx); cbn [core_item] in Hc; apply existsb_exists in Hc;
+      destruct Hc as (y & Hy & Hxy); apply String.eqb_eq in Hxy; subst y; exact Hy. }
+    pose proof (Hvs x Hinv) as Hin.
+    destruct (pos_last_some x (cols t) Hin) as (i & Hp & Hlt).
+    destruct (nth_error_lt r i ltac:(lia)) as (c & Hnth). exists i, c. split; [exact Hp|]. split; [exact Hnth|].
+    assert (Hcc : col_cell (cols t) r x = c) by (unfold col_cell, row_look; rewrite Hp; cbn [obind]; rewrite Hnth; reflexivity).
+    split; [exact Hcc|]. rewrite <- Hcc. apply He. exact Hinv. }
+  unfold return_tbl.
+  replace (forallb (fun it => is_var (fst it)) (ret_items items)) with (forallb is_var items)
+    by (unfold ret_items; rewrite forallb_map'; reflexivity).
+  destruct (forallb is_var items) eqn:Eall.
+  - (* variables only *)
+    rewrite forallb_forall in Eall.
+    set (posf := fun e => match e with EVar x => match pos_last x (cols t) with Some i => i | None => 0%nat end | _ => 0%nat end).
+    assert (Hps : mapM (fun it : lexpr * option string => match fst it with EVar x => of_opt (pos_last x (cols t)) | _ => Err end) (ret_items items)
+                  = Ok (map posf items)).
+    { unfold ret_items. rewrite <- (map_map (fun e => (e, @None string)) (fun it => posf (fst it))).
+      apply mapM_map. intros it Hit. apply in_map_iff in Hit. destruct Hit as (e & <- & He). cbn [fst].
+      specialize (Eall e He). destruct e; try discriminate Eall. specialize (Hc _ He). cbn [core_item] in Hc.
+      apply existsb_exists in Hc. destruct Hc as (y & Hy & Hxy). apply String.eqb_eq in Hxy. subst y.
+      destruct (pos_last_some x (cols t) (Hvs _ Hy)) as (i & Hp & _). cbn [posf]. rewrite Hp. reflexivity. }
+    rewrite Hps. cbn [rbind].
+    assert (Hcell : forall r e, List.In r (rows t) -> List.In e items ->
+                    exists c, nth_error r (posf e) = Some c /\ idlike c /\ cell_val c = ival st (cols t) r e).
+    { intros r e Hr He. specialize (Eall e He). destruct e; try discriminate Eall.
+      destruct (Hvar x r (or_introl He) Hr) as (i & c & Hp & Hnth & Hcc & Hce). exists c. cbn [posf ival]. rewrite Hp, Hcc. auto. }
+    destruct (Nat.eqb (List.length (map posf items)) (List.length (cols t)) && is_identity 0 (map posf items)) eqn:Eid.
+    + apply andb_true_iff in Eid. destruct Eid as [El Ei]. apply Nat.eqb_eq in El. apply is_identity_seq in Ei.
+      eexists. split; [reflexivity|]. cbn [out_rows rows]. apply Hgoal.
+      clear Hgoal. assert (Hall : forall r, List.In r (rows t) -> map cell_val r = map (ival st (cols t) r) items).
+      { intros r Hr. destruct (Hrows r Hr) as [Hl _].
+        rewrite <- (map_nth_seq r (CVal VNull)) at 1. rewrite map_map. rewrite <- Hl, <- El, <- Ei, map_map.
+        apply map_ext_in. intros e He. destruct (Hcell r e Hr He) as (c & Hnth & _ & Hv).
+        rewrite (nth_error_nth r (posf e) (CVal VNull) Hnth). exact Hv. }
+      apply Forall2_same. exact Hall.
+    + set (g := fun r : row => map (fun p => to_nodecol (nth p r (CVal VNull))) (map posf items)).
+      match goal with |- context [mapM ?f (rows t)] => assert (Hrs : mapM f (rows t) = Ok (map g (rows t))) end.
+      { apply mapM_map. intros r Hr. apply mapM_map. intros p Hp. apply in_map_iff in Hp. destruct Hp as (e & <- & He).
+        destruct (Hcell r e Hr He) as (c & Hnth & _ & _). rewrite Hnth. cbn [of_opt rbind]. rewrite (nth_error_nth r (posf e) (CVal VNull) Hnth). reflexivity. }
+      rewrite Hrs. cbn [rbind]. eexists. split; [reflexivity|]. cbn [out_rows rows mkT].
+      rewrite typed_rows_stable.
+      * apply Hgoal. clear Hgoal Hrs.
+        assert (Hall : forall r, List.In r (rows t) -> map cell_val (g r) = map (ival st (cols t) r) items).
+        { intros r Hr. unfold g. rewrite !map_map. apply map_ext_in. intros e He.
+          destruct (Hcell r e Hr He) as (c & Hnth & Hce & Hv). rewrite (nth_error_nth r (posf e) (CVal VNull) Hnth).
+          rewrite (proj2 (to_nodecol_id c Hce)). exact Hv. }
+        apply Forall2_map_r. exact Hall.
+      * apply Forall_forall. intros r' Hr'. apply in_map_iff in Hr'. destruct Hr' as (r & <- & Hr). unfold g.
+        rewrite !map_map. apply Forall2_map_both.
+        intros e He. destruct (Hcell r e Hr He) as (c & Hnth & Hce & _). rewrite (nth_error_nth r (posf e) (CVal VNull) Hnth).
+        rewrite (proj1 (to_nodecol_id c Hce)). exact I.
+  - (* mixed items *)
+    set (chk := fun it : lexpr * option string => match fst it with
+                            | EVar x | EProp x _ => of_opt (pos_last x (cols t))
+                            | ELit _ => Ok O
+                            | _ => Err end).
+    assert (Hchk : exists l, mapM chk (ret_items items) = Ok l).
+    { clear -Hc Hvs. induction items as [|e items IH]; [exists []; reflexivity|].
+      destruct IH as (l & Hl); [intros x Hx; apply Hc; right; exact Hx|].
+      pose proof (Hc e (or_introl eq_refl)) as He. cbn [ret_items map mapM]. fold (ret_items items). rewrite Hl.
+      unfold chk at 1. cbn [fst].
+      destruct e; cbn [core_item] in He; try discriminate He; cbn [rbind]; try (eexists; reflexivity).
+      all: apply existsb_exists in He; destruct He as (y & Hy & Hxy); apply String.eqb_eq in Hxy; subst y;
+           destruct (pos_last_some x (cols t) (Hvs _ Hy)) as (i & Hp & _); rewrite Hp; cbn [of_opt rbind]; eexists; reflexivity. }
+    destruct Hchk as (l & Hl). fold chk. rewrite Hl. cbn [rbind].
+    set (cellf := fun (r : row) (e : lexpr) => match e with
+                     | EVar x => to_nodecol (col_cell (cols t) r x)
+                     | EProp x k => CVal (pprop st (col_cell (cols t) r x) k)
+                     | ELit v => CVal v
+                     | _ => CVal VNull end).
+    match goal with |- context [mapM ?f (rows t)] => assert (Hrs : mapM f (rows t) = Ok (map (fun r => map (cellf r) items) (rows t))) end.
+    { apply mapM_map. intros r Hr. unfold ret_items. rewrite <- (map_map (fun e => (e, @None string)) (fun it => cellf r (fst it))).
+      apply mapM_map. intros it Hit. apply in_map_iff in Hit. destruct Hit as (e & <- & He). cbn [fst].
+      pose proof (Hc e He) as Hce. destruct e; cbn [core_item] in Hce; try discriminate Hce; cbn [proj_cell cellf]; [reflexivity| |].
+      - destruct (Hvar x r (or_introl He) Hr) as (i & c & Hp & Hnth & Hcc & _). rewrite Hp. cbn [of_opt rbind]. rewrite Hnth. cbn [rbind]. rewrite Hcc. reflexivity.
+      - destruct (Hvar x r (or_intror (ex_intro _ k He)) Hr) as (i & c & Hp & Hnth & Hcc & _). rewrite Hp. cbn [of_opt rbind]. rewrite Hnth. cbn [rbind]. rewrite Hcc. reflexivity. }
+    rewrite Hrs. cbn [rbind]. eexists. split; [reflexivity|]. cbn [out_rows rows mkT].
+    rewrite typed_rows_stable.
+    + apply Hgoal. clear Hgoal Hrs.
+      assert (Hall : forall r, List.In r (rows t) -> map cell_val (map (cellf r) items) = map (ival st (cols t) r) items).
+      { intros r Hr. rewrite map_map. apply map_ext_in. intros e He. pose proof (Hc e He) as Hce.
+        destruct e; cbn [core_item] in Hce; try discriminate Hce; cbn [cellf ival cell_val]; try reflexivity.
+        destruct (Hvar x r (or_introl He) Hr) as (i & c & _ & _ & Hcc & Hent). rewrite Hcc. apply (proj2 (to_nodecol_id c Hent)). }
+      apply Forall2_map_r. exact Hall.
+    + apply Forall_forall. intros r' Hr'. apply in_map_iff in Hr'. destruct Hr' as (r & <- & Hr).
+      unfold ret_items. rewrite map_map. cbn [fst]. apply Forall2_map_both.
+      intros e He. pose proof (Hc e He) as Hce. destruct e; cbn [core_item] in Hce; try discriminate Hce; cbn [is_var cellf]; try exact I.
+      destruct (Hvar x r (or_introl He) Hr) as (i & c & _ & _ & Hcc & Hent). rewrite Hcc, (proj1 (to_nodecol_id c Hent)). exact I.
+Qed.
